@@ -40,6 +40,7 @@ type solver struct {
 	declVars []*Term         // declared variables (in order) for model extraction
 	stats    solverStats
 	sawError bool
+	inPath   bool
 	log      io.Writer // optional transcript
 	buf      strings.Builder
 }
@@ -76,11 +77,16 @@ func (s *solver) start() error {
 func (s *solver) preamble() {
 	s.send("(set-option :print-success false)")
 	if strings.Contains(s.bin[0], "z3") {
+		s.send("(set-option :global-decls true)")
 		s.send(fmt.Sprintf("(set-option :timeout %d)", s.timeout))
+	} else {
+		s.send("(set-option :global-declarations true)")
+		s.send("(set-logic ALL)")
 	}
 }
 
 func (s *solver) resetState() {
+	s.inPath = false
 	s.defined = make(map[int]bool)
 	s.declared = make(map[string]bool)
 	s.declVars = nil
@@ -111,11 +117,27 @@ func (s *solver) flush() {
 	s.buf.Reset()
 }
 
-// reset clears all assertions and declarations (start of a new path).
+// reset starts a new path: assertions of the previous path are popped, while
+// declarations and definitions (global) stay. The process is restarted when
+// it has accumulated many definitions.
 func (s *solver) reset() {
-	s.send("(reset)")
-	s.resetState()
-	s.preamble()
+	if s.inPath {
+		s.send("(pop 1)")
+		s.inPath = false
+	}
+	if len(s.defined) > 150000 {
+		s.flush()
+		s.close()
+		s.start()
+	}
+}
+
+// beginPath opens the assertion scope of a path (lazily, on first use).
+func (s *solver) beginPath() {
+	if !s.inPath {
+		s.send("(push 1)")
+		s.inPath = true
+	}
 }
 
 func smtName(n string) string { return "|" + n + "|" }
@@ -179,6 +201,7 @@ func (s *solver) expr(t *Term) string {
 
 // assert adds t permanently (until reset).
 func (s *solver) assert(t *Term) {
+	s.beginPath()
 	r := s.ref(t)
 	s.send("(assert " + r + ")")
 }
@@ -192,6 +215,7 @@ func (s *solver) readLine() (string, error) {
 func (s *solver) check(extra *Term) satResult {
 	start := time.Now()
 	s.stats.queries++
+	s.beginPath()
 	if extra != nil {
 		r := s.ref(extra)
 		s.send("(push 1)")
@@ -261,14 +285,14 @@ func (s *solver) endModel(hadExtra bool) {
 }
 
 // model reads values for all declared variables after a sat answer.
-func (s *solver) model(c *termCtx) map[string]*Term {
+func (s *solver) model(c *termCtx, vars []*Term) map[string]*Term {
 	m := make(map[string]*Term)
-	if len(s.declVars) == 0 {
+	if len(vars) == 0 {
 		return m
 	}
 	var names []string
-	for _, v := range s.declVars {
-		names = append(names, smtName(v.name))
+	for _, v := range vars {
+		names = append(names, s.ref(v))
 	}
 	s.send("(get-value (" + strings.Join(names, " ") + "))")
 	s.flush()
@@ -303,7 +327,7 @@ func (s *solver) model(c *termCtx) map[string]*Term {
 	pos := 0
 	root := parseSexp(toks, &pos)
 	byName := map[string]*Term{}
-	for _, v := range s.declVars {
+	for _, v := range vars {
 		byName[v.name] = v
 	}
 	for _, pair := range root.list {
